@@ -1173,3 +1173,34 @@ Proof.
   rewrite Hpr in Hpr'. inversion Hpr'; subst P' C' ID'.
   apply (profile_exactb_sound okN okNb Hok). exact Hpe.
 Qed.
+
+(** ** instances at the default threshold 0 *)
+Corollary run_conformance_thr0 fa okN okF (L : FreqLaws fa okN okF) c g ns shapes :
+  okN 1%N ->
+  r_keep_less_specific c = true -> r_all_compliant c = true -> r_disable_or c = true ->
+  strict_domb (r_tau c) (r_shapes_ns c) g = true ->
+  (forall ins P C ID,
+     track (r_tau c) (match r_targets c with Some l => TClasses l | None => TAll end) (r_cap c) g = inl ins ->
+     profile (pcfg_of c) ins g = inl (P, C, ID) ->
+     profile_exact okN (scfg_of c ns) g P C) ->
+  run_shapes fa c (thr_val fa 0 1) g = inl (ns, shapes) ->
+  valid_typing (schema_of (r_tau c) shapes) g (instance_typing (r_tau c) (r_shapes_ns c) g).
+Proof.
+  intros H1 Hk Ha Ho Hsd HP Hrun.
+  eapply (run_conformance fa okN okF L c (thr_val fa 0 1) g ns shapes); try eassumption.
+  - apply (thr_ok fa okN okF L). exact H1.
+  - intros x Hx. unfold thr_val. apply (ratio_zero_le _ _ _ L); assumption.
+Qed.
+
+Corollary run_conformance_checked_thr0 fa okN okF (L : FreqLaws fa okN okF) okNb c g ns shapes :
+  okN 1%N -> (forall d, okNb d = true -> okN d) ->
+  r_keep_less_specific c = true -> r_all_compliant c = true -> r_disable_or c = true ->
+  c03_premises okNb c g = Some (true, true) ->
+  run_shapes fa c (thr_val fa 0 1) g = inl (ns, shapes) ->
+  valid_typingb (schema_of (r_tau c) shapes) g (instance_typing (r_tau c) (r_shapes_ns c) g) = true.
+Proof.
+  intros H1 Hok Hk Ha Ho Hprem Hrun.
+  eapply (run_conformance_checked fa okN okF L okNb c (thr_val fa 0 1) g ns shapes); try eassumption.
+  - apply (thr_ok fa okN okF L). exact H1.
+  - intros x Hx. unfold thr_val. apply (ratio_zero_le _ _ _ L); assumption.
+Qed.
